@@ -56,7 +56,7 @@ def plan(tier):
         "assumptions": ["the 32-bit spaces are covered per decode leaf (complete partition of class selection and operand "
                         "extraction under the wide-observation cap), each leaf by pattern members - not every word is stepped",
                         "NotImplementedError is accepted from arm_v6.py mock hooks, hub.set_bits and decoder regions"],
-        "deadline_s": 170 if tier == "quick" else 1700,
+        "deadline_s": 400 if tier == "quick" else 1700,
     }
 
 
